@@ -10,6 +10,7 @@ import re
 import shutil
 import struct
 import tempfile
+import time
 
 import core
 
@@ -799,7 +800,14 @@ def _run(ctx, st, make, fresh, get_modified_time, staged_write, TestMountedFileS
             ctx.fail("mtime:absent", "get_modified_time is not None for a path that does not exist", {"store": type(store).__name__})
         for o in ops:
             if o == 0:
+                t_before = time.time()
                 store.write(val)
+                mt_w = store.get_modified_time()
+                # faithful: the reported time is the time of THIS write (file-system clocks may lag the wall clock by a few ms), not that of an earlier one
+                if mt_w is not None and mt_w.timestamp() < t_before - 0.05:
+                    ctx.fail("mtime:not-the-time-of-the-write", "after a write that began at %.3f the store reports a modified time of %.3f (%.0f ms earlier): the time of an earlier write"
+                             % (t_before, mt_w.timestamp(), (t_before - mt_w.timestamp()) * 1000), {"store": type(store).__name__, "ops": ops})
+                time.sleep(0.06)
             else:
                 try:
                     os.remove(p)
